@@ -21,6 +21,7 @@ RULE = (
     "(dispersion delay of the sub-band in new bins + linear period drift; profiles within 1e-3 bin of a rounding boundary are counted, not judged). The same to depth 2 on cubes "
     "(128,2,32) and (200,4,50) of a 600 s observation with period steps of 2e-6 and -3e-6. Non-trivial = histories of length >= 2"
 )
+SCALE_LANE = 'cubes (128,2,32) and (200,4,50) (thorough up to (1000,2,64)) of a 600 s observation: all histories to depth 2 (3) over 6 operations incl. period steps of 2e-6 and -3e-6'
 ASSUMPTIONS = [
     "targets come from a small alphabet chosen so that the implied shifts are non-zero and distinct; larger alphabets are sampled by a seeded random walk (thorough, auxiliary)",
     "the differential oracle uses the library itself on a fresh cube: it decides history-independence; the absolute shift model (C09's dispersion constant, linear drift) decides the single shift",
